@@ -108,7 +108,14 @@ pub fn check_formula(f: &fol::Formula, source: &str, r: &mut Rng, n_interps: usi
                     if e == "AVM_STEP_LIMIT" {
                         st.inc("step_limit_hits_see_C18");
                     } else {
-                        st.inc("lost_to_panic");
+                        // no formula is returned at all (also a C16 matter; reported here with the
+                        // strategy that triggers it)
+                        st.eval(None);
+                        st.violation(
+                            format!("panic:{}", crate::run::last_panic_location().unwrap_or("?".into())),
+                            format!("{} {} panicked on {}: {}", p.cli_name(), s.cli_name(), f, e),
+                            J::obj().set("portfolio", J::s(p.cli_name())).set("strategy", J::s(s.cli_name())).set("input", J::s(f.to_string())).set("source", J::s(source)),
+                        );
                     }
                     continue;
                 }
